@@ -44,7 +44,10 @@ def frame_effects(P):
     eff = {}
     users = []
     for _round in range(4):
-        users = [f for f in P.fns.values() if any(c.resolved in (BEGIN, COMMIT, ROLLBACK) or eff.get(c.resolved, {0}) != {0} for c in f.calls())]
+        # analysis views: a private helper that commits on one path and rolls back on another (returning true / false) is spliced
+        # into its caller, so the verdict stays correlated with what happened to the frame
+        cands = [f if f.kind == "closure" else P.inlined(f) for f in P.fns.values()]
+        users = [f for f in cands if any(c.resolved in (BEGIN, COMMIT, ROLLBACK) or eff.get(c.resolved, {0}) != {0} for c in f.calls())]
         changed = False
         for f in users:
             if f.impl_self == F:
@@ -204,7 +207,7 @@ def run(P, R, tier, cfg):
     R.count("mutators_reachable", len(reach_mut))
     if len(reach_mut) < FLOORS["mutators_reachable"]:
         R.undecide("c", "floor", "only %d Facts data mutators reachable from a query (expected at least set and remove)" % len(reach_mut))
-    rec = P.fns.get(REC)
+    rec = P.inlined(P.fns.get(REC))
     if rec is None:
         raise Broken("anchor missing: " + REC)
     for m in sorted(dw_names):
@@ -361,35 +364,75 @@ def _store_shape(P, R, rec):
             R.violate("d", "record:captures", "undo entry `%s` does not capture both the previous value and type" % vs[:160], rec, pushes[0].line)
     # rollback
     rb = P.one(ROLLBACK)
-    pops = [c for c in rb.calls() if c.name == "std::vec::Vec::pop" and c.bb in rb.normal_blocks()]
+    # roles of the undo entry's fields come from its declaration, not from their names: the Option<Value> field restores `data`,
+    # the other Option field restores `fact_types`
+    UE = "engine::facts::UndoEntry"
+    uef = P.adts.get(UE, {}).get("variants", [{}])[0].get("fields", [])
+    val_f = [f["name"] for f in uef if f["ty"].startswith("std::option::Option<") and "Value" in f["ty"]]
+    typ_f = [f["name"] for f in uef if f["ty"].startswith("std::option::Option<") and "Value" not in f["ty"]]
+    if len(val_f) != 1 or len(typ_f) != 1:
+        R.undecide("d", "undo-entry-fields", "UndoEntry does not have one Option<Value> and one other Option field (%s)" % [f["name"] + ":" + f["ty"] for f in uef], rb)
+        return
+    role = {"data": val_f[0], "fact_types": typ_f[0]}
+    frame_pops = [c for c in rb.calls() if c.name == "std::vec::Vec::pop" and c.bb in rb.normal_blocks() and "undo_frames" in fmt_sym(rb.sym_operand(c.args[0]), maxdepth=8) and "Vec::pop" not in fmt_sym(rb.sym_operand(c.args[0]), maxdepth=8)]
     names = [c.name for c in rb.calls() if c.bb in rb.normal_blocks()]
-    if len(pops) == 1 and any(n.endswith("Iterator::rev") or n.endswith("::rev") for n in names):
-        R.hold("d", "rollback pops one frame and replays it in reverse", fn=rb)
-    else:
-        R.violate("d", "rollback:reverse", "rollback does not pop exactly one frame and replay it reversed (pops=%d)" % len(pops), rb)
     ins = [c for c in rb.calls() if c.name.endswith("HashMap::insert") and c.bb in rb.normal_blocks()]
     rem = [c for c in rb.calls() if c.name.endswith("HashMap::remove") and c.bb in rb.normal_blocks()]
+    # replay order: newest entry first - an iterator with rev(), or a loop that pops entries off the end of the popped frame
+    rev_iter = any(n.endswith("Iterator::rev") or n.endswith("::rev") for n in names)
+    pop_loop = False
+    for lp in rb.loops():
+        if any(c.bb in lp["body"] for c in ins + rem):
+            drv = A.loop_driver(rb, lp)
+            if drv["kind"] == "pop" and "Vec::pop" in fmt_sym(drv.get("iter_sym") or ("unknown",), maxdepth=10) + " ".join(c.name for c in rb.calls() if c.bb == drv.get("call_bb")):
+                pop_loop = True
+    if len(frame_pops) == 1 and (rev_iter or pop_loop):
+        R.hold("d", "rollback pops one frame and replays it newest entry first (%s)" % ("rev()" if rev_iter else "pop loop"), fn=rb)
+    else:
+        R.violate("d", "rollback:reverse", "rollback does not pop exactly one frame and replay it newest-first (frame pops=%d, rev()=%s, pop loop=%s)" % (len(frame_pops), rev_iter, pop_loop), rb)
     maps_i = sorted(set(_map_name(rb, c) for c in ins))
     maps_r = sorted(set(_map_name(rb, c) for c in rem))
     if maps_i == ["data", "fact_types"] and maps_r == ["data", "fact_types"]:
         R.hold("d", "rollback restores Some->insert / None->remove on data and fact_types", fn=rb)
     else:
         R.violate("d", "rollback:maps", "rollback inserts into %s and removes from %s; both data and fact_types need both" % (maps_i, maps_r), rb)
-    # each insert/remove under the matching variant edge of prev_value / prev_type
+    # each insert/remove under the matching variant edge of the entry's field for that map
     for c in ins + rem:
         want = "Some" if c in ins else "None"
-        gs = [(fmt_sym(g["cond"]), g["polarity"]) for g in A.guards_of(rb, c.bb)]
-        fld = "prev_value" if _map_name(rb, c) == "data" else "prev_type"
-        ok = any(fld in g and p == (1 if want == "Some" else 0) for (g, p) in gs)
+        mp = _map_name(rb, c)
+        fld = role.get(mp, "?")
+        ok = False
+        for g in A.guards_of(rb, c.bb):
+            core = strip(g["cond"])
+            if core[0] != "discr":
+                continue
+            if any(x[0] == "field" and x[2] == fld and x[3].endswith("UndoEntry") for x in walk(core[1])):
+                if g["polarity"] in (1, "Some") and want == "Some" or g["polarity"] in (0, "None") and want == "None":
+                    ok = True
+                elif g["polarity"] == "otherwise":
+                    ve = A.variant_edges(rb, g["sw"]) or {}
+                    listed = [k for k in ve if k is not None]
+                    if (want == "None" and listed == ["Some"]) or (want == "Some" and listed == ["None"]):
+                        ok = True
+        # a destructured entry (`UndoEntry { key, saved_value, .. } = e`) moves the field into a local first
+        if not ok:
+            for g in A.guards_of(rb, c.bb):
+                core = strip(g["cond"])
+                if core[0] == "discr" and fld in fmt_sym(core[1], maxdepth=10):
+                    pol = g["polarity"]
+                    if (pol in (1, "Some") and want == "Some") or (pol in (0, "None") and want == "None"):
+                        ok = True
         if ok:
-            R.hold("d", "rollback %s on %s under %s = %s" % (c.name.rsplit("::", 1)[1], _map_name(rb, c), fld, want), fn=rb, line=c.line)
+            R.hold("d", "rollback %s on %s under <entry>.%s = %s" % (c.name.rsplit("::", 1)[1], mp, fld, want), fn=rb, line=c.line)
         else:
-            R.violate("d", "rollback:arm:%s:%s" % (_map_name(rb, c), c.name.rsplit("::", 1)[1]), "rollback %s on %s is not under the `%s = %s` arm" % (c.name.rsplit("::", 1)[1], _map_name(rb, c), fld, want), rb, c.line)
+            R.violate("d", "rollback:arm:%s:%s" % (mp, c.name.rsplit("::", 1)[1]), "rollback %s on %s is not under the `%s = %s` arm of the undo entry" % (c.name.rsplit("::", 1)[1], mp, fld, want), rb, c.line)
     # the restore loop visits every entry
     for lp in rb.loops():
+        if not any(c.bb in lp["body"] for c in ins + rem):
+            continue
         drv = A.loop_driver(rb, lp)
         ex = [e for e in rb.loop_exits(lp) if e[0] != drv.get("call_bb") and not _is_iter_exit(rb, e, drv)]
-        if drv["kind"] == "iterator" and not ex:
+        if drv["kind"] in ("iterator", "pop") and not ex:
             R.hold("d", "rollback loop visits every entry of the frame (no early exit)", fn=rb)
         else:
             R.violate("d", "rollback:early-exit", "the restore loop can exit before all entries are replayed", rb)
